@@ -239,6 +239,21 @@ def run_policy(case):
 
 # ---- case -> Coq ---------------------------------------------------------------
 
+def ceval(name, exprs, chunk=150, slice_=3000):
+    """core.coq_eval in slices (its per-case index is a unary nat: keep it small) with one retry of a
+    slice whose coqc was killed (the machine is shared; a model that really does not evaluate fails twice)."""
+    out = []
+    for k in range(0, len(exprs), slice_):
+        part = exprs[k:k + slice_]
+        try:
+            res = core.coq_eval(name, IMPORTS, part, chunk=chunk)
+        except core.CoqEvalError:
+            res = core.coq_eval(name + 'r', IMPORTS, part, chunk=chunk)
+        out += res
+    return out
+
+
+
 _STATE_CTOR = None
 
 
@@ -558,7 +573,7 @@ def conf_shape(conf):
 def suite_evaluate(ctx, cases, tag):
     exprs = ['show (evaluate (%d)%%Z %s %s)' % (NOW, coq_conf(c['conf']), coq_pop(c['rows'])) for c in cases]
     impl = [run_policy(c) for c in cases]
-    res = core.coq_eval('c18' + tag, IMPORTS, exprs, chunk=150)
+    res = ceval('c18' + tag, exprs)
     stats = ctx.cov['suites'].setdefault(tag, {'evaluations': 0, 'distinct_nontrivial': 0})
     shapes, outcomes, hist = stats.setdefault('config_shapes', {}), stats.setdefault('outcomes', {}), stats.setdefault('deleted_rows', {})
     for c, (outcome, after, fetches), r in zip(cases, impl, res):
@@ -610,7 +625,7 @@ def suite_queries(ctx, cases):
         cc, pp, exp = coq_conf(conf), coq_pop(c['rows']), '(%d)%%Z' % (NOW - 60 * ot)
         exprs.append('(ids (expired_q %s %s None %s), ids (expired_q %s %s %s %s), ids (superfluous_q %s %s None %s), ids (superfluous_q %s %s %s %s))' % (
             cc, exp, pp, cc, exp, coq_optZ(conf['bs']), pp, cc, coq_optZ(conf['mfe']), pp, cc, coq_optZ(conf['mfe']), coq_optZ(conf['bs']), pp))
-    res = core.coq_eval('c18queries', IMPORTS, exprs, chunk=150)
+    res = ceval('c18queries', exprs)
     stats = ctx.cov['suites'].setdefault(tag, {'evaluations': 0, 'distinct_nontrivial': 0})
     for c, (e_all, e_lim, s_all, s_lim), r in zip(cases, obs, res):
         parts = core.re.findall(r'\[[^\]]*\]', r)
@@ -660,7 +675,7 @@ def suite_cascade(ctx, cases):
         obs.append((k, out, after))
         used.append(c)
         exprs.append('ids (cascade_delete %s [%d%%nat])' % (coq_pop(c['rows']), k))
-    res = core.coq_eval('c18cascade', IMPORTS, exprs, chunk=200)
+    res = ceval('c18cascade', exprs, chunk=200)
     for c, (k, out, after), r in zip(used, obs, res):
         left = parse_ids(r)
         ctx.count(tag, json.dumps([c['rows'], k], sort_keys=True), nontrivial=len(after) < len(c['rows']) - 1)
@@ -729,7 +744,7 @@ def suite_gating(ctx):
         cases.append(('ignored_ok', tuple(ign)))
         obs.append(o)
         exprs.append('ignored_ok %s' % coq_conf(conf))
-    res = core.coq_eval('c18gating', IMPORTS, exprs)
+    res = ceval('c18gating', exprs, chunk=400)
     for cs, o, r in zip(cases, obs, res):
         ctx.count(tag, cs)
         ctx.cov['disagreements_checked'] += 1
